@@ -128,6 +128,25 @@ void prop(DP &dp, const ref::Bytes &sched, Ctx &ctx) {
 		{ Op op; op.k = Op::ADV; op.val = 12000; plans[0].ops.push_back(op); }
 		{ Op op; op.k = Op::FLUSH; plans[0].ops.push_back(op); }
 	}
+	if (live_capacity && dp.chance(70)) {
+		// a packet whose escaped image is longer than the 312-byte staging buffer of the sender: a large capacity in force,
+		// several long messages made of bytes that all need escaping, no flush in between
+		ctx.tag("big-image-recipe");
+		{ Op op; op.k = Op::CAP; op.val = (unsigned) dp.range(200, 255); plans[0].ops.push_back(op); }
+		unsigned k = (unsigned) dp.range(3, 5);
+		for (unsigned i = 0; i < k; i++) {
+			SendCall c = draw_send(dp, true, fn_of(dp.flag() ? "bidib_send_string_set" : "bidib_send_vendor_get"));
+			c.addr = {(uint8_t) (0x21 + i)};
+			c.p1 = dp.bytes((size_t) dp.range(30, 44), false);
+			for (auto &b : c.p1) b = (b & 1) ? 0xFE : 0xFD;
+			Op op; op.k = Op::SEND; op.call = c;
+			node_types[key(c.addr)].insert(send_table()[(size_t) c.fn].type);
+			budget[key(c.addr)] += ref::RESP[send_table()[(size_t) c.fn].type & 0x7f].size;
+			plans[0].ops.push_back(op);
+			total_sends++;
+		}
+		{ Op op; op.k = Op::FLUSH; plans[0].ops.push_back(op); }
+	}
 	for (unsigned t = 0; t < nthreads; t++) {
 		unsigned nops = (unsigned) dp.range(1, 40);
 		for (unsigned i = 0; i < nops && dp.more(); i++) {
